@@ -71,16 +71,17 @@ Definition ad_set_fail (st : ad_state) (v : N * N * N * N) : ad_state :=
 Definition ad_set_startup (st : ad_state) (v : N * N * N * N) : ad_state :=
   mkAD (ad_ident st) (ad_start st) (ad_pin st) (ad_max_level st) (ad_mode st) (ad_burn st) (ad_post st) (ad_active st) (ad_curve st) (ad_resp st) (ad_lock st) (ad_freq st) (ad_presets st) (ad_scene st) (ad_level st) (ad_merge st) (ad_min st) (ad_fail st) v.
 
-Definition ad_pers : list pers := [ mkPers 12 (* "6-Channel 16-bit" *) [54; 45; 67; 104; 97; 110; 110; 101; 108; 32; 49; 54; 45; 98; 105; 116] [] ].
-Definition CURVES : list (list N) := [(* "Linear Curve" *) [76; 105; 110; 101; 97; 114; 32; 67; 117; 114; 118; 101]; (* "Square Law Curve" *) [83; 113; 117; 97; 114; 101; 32; 76; 97; 119; 32; 67; 117; 114; 118; 101]; (* "S Curve" *) [83; 32; 67; 117; 114; 118; 101]].
-Definition RESPONSE_TIMES : list (list N) := [(* "Super fast" *) [83; 117; 112; 101; 114; 32; 102; 97; 115; 116]; (* "Fast" *) [70; 97; 115; 116]; (* "Slow" *) [83; 108; 111; 119]; (* "Very slow" *) [86; 101; 114; 121; 32; 115; 108; 111; 119]].
-Definition LOCK_STATES : list (list N) := [(* "Unlocked" *) [85; 110; 108; 111; 99; 107; 101; 100]; (* "Start Address Locked" *) [83; 116; 97; 114; 116; 32; 65; 100; 100; 114; 101; 115; 115; 32; 76; 111; 99; 107; 101; 100]; (* "Address and Personalities Locked" *) [65; 100; 100; 114; 101; 115; 115; 32; 97; 110; 100; 32; 80; 101; 114; 115; 111; 110; 97; 108; 105; 116; 105; 101; 115; 32; 76; 111; 99; 107; 101; 100]].
-Definition PWM_FREQUENCIES : list (N * list N) := [(120, (* "120Hz" *) [49; 50; 48; 72; 122]); (500, (* "500Hz" *) [53; 48; 48; 72; 122]); (1000, (* "1kHz" *) [49; 107; 72; 122]); (5000, (* "5kHz" *) [53; 107; 72; 122]); (10000, (* "10kHz" *) [49; 48; 107; 72; 122])].
+Definition ad_pers : list pers := map (fun p => mkPers (fst p) (snd p) []) ADV_PERSONALITIES.
+Definition CURVES : list (list N) := ADV_CURVES.
+Definition RESPONSE_TIMES : list (list N) := ADV_RESPONSE_TIMES.
+Definition LOCK_STATES : list (list N) := ADV_LOCK_STATES.
+Definition PWM_FREQUENCIES : list (N * list N) := ADV_PWM_FREQUENCIES.
 
 Definition ad_init : ad_state :=
-  mkAD false 1 0 65535 IDENTIFY_MODE_QUIET 0 true 1 1 1 0 1
+  mkAD false 1 0 ADV_UPPER_MAX_LEVEL IDENTIFY_MODE_QUIET 0 true 1 1 1 0 1
        [(0, 0, 0, PRESET_PROGRAMMED_READ_ONLY); (0, 0, 0, 0); (0, 0, 0, 0); (0, 0, 0, 0); (0, 0, 0, 0); (0, 0, 0, 0)]
-       0 0 0 (10, 20, 1) (0, 10, 0, 0) (0, 0, 0, 255).
+       0 0 0 (10, 20, 1) (0, ADV_MIN_FAIL_DELAY_TIME, ADV_MIN_FAIL_HOLD_TIME, 0)
+       (0, ADV_MIN_STARTUP_DELAY_TIME, ADV_MIN_STARTUP_HOLD_TIME, 255).
 Definition ad_fp (st : ad_state) : N := active_fp ad_pers (ad_active st).
 
 (* a SET of a fixed-size structure: length check, then the handler's own validation on the bytes *)
@@ -112,7 +113,7 @@ Definition ad_set_start_h : handler ad_state := fun q st =>
 Definition fm_bytes (m : N * N * N * N) : list N :=
   match m with (sc, dl, hd, lv) => be_bytes 2 sc ++ be_bytes 2 dl ++ be_bytes 2 hd ++ [u8 lv] end.
 (* delay == INFINITE_TIME ? INFINITE_TIME : max(lo, min(hi, delay)) *)
-Definition clamp_time (lo hi v : N) : N := if v =? 65535 then 65535 else N.max lo (N.min hi v).
+Definition clamp_time (lo hi v : N) : N := if v =? ADV_INFINITE_TIME then ADV_INFINITE_TIME else N.max lo (N.min hi v).
 Definition set_mode_struct (q : request) (st : ad_state) (dlo dhi hlo hhi : N)
            (upd : ad_state -> N * N * N * N -> ad_state) : option response * ad_state :=
   with_len 7 q st (fun d =>
@@ -123,20 +124,20 @@ Definition set_mode_struct (q : request) (st : ad_state) (dlo dhi hlo hhi : N)
     | _ => (None, st)
     end).
 Definition ad_get_fail : handler ad_state := fun q st => (get_noarg q (fm_bytes (ad_fail st)), st).
-Definition ad_set_fail_h : handler ad_state := fun q st => set_mode_struct q st 10 255 0 65280 ad_set_fail.
+Definition ad_set_fail_h : handler ad_state := fun q st => set_mode_struct q st ADV_MIN_FAIL_DELAY_TIME ADV_MAX_FAIL_DELAY_TIME ADV_MIN_FAIL_HOLD_TIME ADV_MAX_FAIL_HOLD_TIME ad_set_fail.
 Definition ad_get_startup : handler ad_state := fun q st => (get_noarg q (fm_bytes (ad_startup st)), st).
-Definition ad_set_startup_h : handler ad_state := fun q st => set_mode_struct q st 0 1200 0 36000 ad_set_startup.
+Definition ad_set_startup_h : handler ad_state := fun q st => set_mode_struct q st ADV_MIN_STARTUP_DELAY_TIME ADV_MAX_STARTUP_DELAY_TIME ADV_MIN_STARTUP_HOLD_TIME ADV_MAX_STARTUP_HOLD_TIME ad_set_startup.
 
 Definition ad_dimmer_info : handler ad_state := fun q st =>
-  (get_noarg q (be_bytes 2 0 ++ be_bytes 2 32767 ++ be_bytes 2 32767 ++ be_bytes 2 65535 ++
-                [u8 (len CURVES); 14; 1]), st).
+  (get_noarg q (be_bytes 2 ADV_LOWER_MIN_LEVEL ++ be_bytes 2 ADV_UPPER_MIN_LEVEL ++ be_bytes 2 ADV_LOWER_MAX_LEVEL ++
+                be_bytes 2 ADV_UPPER_MAX_LEVEL ++ [u8 (len CURVES); ADV_DIMMER_RESOLUTION; 1]), st).
 Definition ad_get_min : handler ad_state := fun q st =>
   (get_noarg q (match ad_min st with (i, d, o) => be_bytes 2 i ++ be_bytes 2 d ++ [u8 o] end), st).
 Definition ad_set_min_h : handler ad_state := fun q st =>
   with_len 5 q st (fun d =>
     match d with
     | [i1; i0; d1; d0; o] =>
-      if (32767 <? w16 d1 d0) || (32767 <? w16 i1 i0) || (1 <? o) then nackd q st
+      if (ADV_UPPER_MIN_LEVEL <? w16 d1 d0) || (ADV_UPPER_MIN_LEVEL <? w16 i1 i0) || (1 <? o) then nackd q st
       else (ack q [] 0, ad_set_min st (w16 i1 i0, w16 d1 d0, o))
     | _ => (None, st)
     end).
@@ -149,7 +150,7 @@ Definition set_u16_range (q : request) (old lo hi : N) : hres N :=
               else HR (ack q [] 0) v
   end.
 Definition ad_set_max_h : handler ad_state := fun q st =>
-  lift_set (set_u16_range q (ad_max_level st) 32767 65535) st (ad_set_max_level st).
+  lift_set (set_u16_range q (ad_max_level st) ADV_LOWER_MAX_LEVEL ADV_UPPER_MAX_LEVEL) st (ad_set_max_level st).
 
 (* the four SettingManagers; frequency descriptions carry the frequency and are not truncated *)
 Definition ad_get_curve : handler ad_state := fun q st => (setting_get q CURVES 1 (ad_curve st), st).
@@ -281,8 +282,10 @@ Definition ad_set_preset_status_h : handler ad_state := fun q st =>
 (* min/max fade and wait times are stored without HostToNetwork (little endian on the wire) *)
 Definition ad_preset_info : handler ad_state := fun q st =>
   (get_noarg q ([1; 1; 1; 1; 1; 1] ++ be_bytes 2 (u16 (len (ad_presets st))) ++ [0; 0; 254; 255; 0; 0; 254; 255] ++
-                be_bytes 2 10 ++ be_bytes 2 255 ++ be_bytes 2 0 ++ be_bytes 2 65280 ++
-                be_bytes 2 0 ++ be_bytes 2 1200 ++ be_bytes 2 0 ++ be_bytes 2 36000), st).
+                be_bytes 2 ADV_MIN_FAIL_DELAY_TIME ++ be_bytes 2 ADV_MAX_FAIL_DELAY_TIME ++ be_bytes 2 ADV_MIN_FAIL_HOLD_TIME ++
+                be_bytes 2 ADV_MAX_FAIL_HOLD_TIME ++ be_bytes 2 ADV_MIN_STARTUP_DELAY_TIME ++
+                be_bytes 2 ADV_MAX_STARTUP_DELAY_TIME ++ be_bytes 2 ADV_MIN_STARTUP_HOLD_TIME ++
+                be_bytes 2 ADV_MAX_STARTUP_HOLD_TIME), st).
 Definition ad_get_merge : handler ad_state := fun q st => (get_noarg q [u8 (ad_merge st)], st).
 Definition ad_set_merge_h : handler ad_state := fun q st =>
   lift_set (set_uint8_pred q (ad_merge st) (fun v => v <=? MERGEMODE_DMX_ONLY_V)) st (ad_set_merge st).
